@@ -10,6 +10,7 @@ import (
 	"net/http"
 	"path/filepath"
 	"strings"
+	"sync/atomic"
 	"syscall"
 	"time"
 
@@ -426,13 +427,13 @@ func c07B(c *core.Case) {
 		_, _ = w.txn(2)
 	}
 	// keep the node from re-acquiring
-	var blocked bool
-	cl.Svc.Inject = func(node, op string) error {
-		if blocked && (op == "acquire" || (how == "renew-errors" && op == "renew")) {
+	var blocked atomic.Bool
+	cl.Svc.SetInject(func(node, op string) error {
+		if blocked.Load() && (op == "acquire" || (how == "renew-errors" && op == "renew")) {
 			return errors.New("scripted: unavailable")
 		}
 		return nil
-	}
+	})
 	before := c07Snapshot(P.Node, "db")
 	// lose authority right before the first step of a PRNG-chosen kind
 	kinds := []string{"lock RESERVED", "journal open", "journal header", "journal record", "lock PENDING excl", "journal patch", "journal fsync", "db write", "fsync db", "journal finalize", "unlock:"}
@@ -458,7 +459,7 @@ func c07B(c *core.Case) {
 		}
 		if steps == loseAt {
 			lostBefore = step
-			blocked = true
+			blocked.Store(true)
 			switch how {
 			case "expire":
 				cl.Svc.Expire()
@@ -559,13 +560,13 @@ func c07C(c *core.Case) {
 		return
 	}
 	_, _ = w.txn(2)
-	var blocked bool
-	cl.Svc.Inject = func(node, op string) error {
-		if blocked && (op == "acquire" || (how == "renew-errors" && op == "renew")) {
+	var blocked atomic.Bool
+	cl.Svc.SetInject(func(node, op string) error {
+		if blocked.Load() && (op == "acquire" || (how == "renew-errors" && op == "renew")) {
 			return errors.New("scripted: unavailable")
 		}
 		return nil
-	}
+	})
 	before := c07Snapshot(P.Node, "db")
 	other := ref.NewImage(ps)
 	other.Set(1, ref.MakePage1(ps, 3, false, 0, nil))
@@ -609,7 +610,7 @@ func c07C(c *core.Case) {
 			return nil // the import did not wait: judged below
 		default:
 		}
-		blocked = true
+		blocked.Store(true)
 		switch how {
 		case "expire":
 			cl.Svc.Expire()
